@@ -11,7 +11,7 @@ Status of this file (no `sorry`):
 * `eod_means_no_fault_partial`, `complete_read_partial`: proved from explicitly stated missing invariants
   (see the comments at the theorems).
 -/
-import Osmium.Lemmas.PipelineOrder
+import Osmium.Lemmas.PipelineOrder0
 
 set_option linter.unusedSimpArgs false
 set_option linter.unusedVariables false
